@@ -70,6 +70,8 @@ def _replay_kind(path):
     try:
         d = json.load(open(path))
         case = d.get("case") or d
+        if (d.get("engine") or "") == "linkloss":
+            return "linkloss"
         if case.get("mode") == "ilvnode":
             return "ilvnode"
         return case.get("kind", "")
@@ -117,6 +119,13 @@ def _run(c, name, n, seed=None, corr=CORR):
         k += 1
 
 
+def _linkloss(c, n, replay=None):
+    args = ["linkloss", "-replay", replay] if replay else ["linkloss", "-n", str(n)]
+    out = c.harness("proto", args, timeout=900)
+    if out:
+        c.monitor("linkloss", out)
+
+
 def run(c):
     c.proofs("theories/Properties/C14.v", clean=(c.tier == "thorough"))
     # the checker definitions are not in the cone of the property file: (re)build them after the cone
@@ -136,8 +145,17 @@ def run(c):
     if c.replay and _replay_kind(c.replay) == "ilvnode":
         _node_race(c, replay=c.replay)
         return
+    if c.replay and _replay_kind(c.replay) == "linkloss":
+        _linkloss(c, 1, replay=c.replay)
+        return
     if not c.replay:
         _node_race(c)
+        if c.violations:
+            return
+        # partial loss: ONE pooled link of a live connection is lost (connection objects over pipes); afterwards nothing the
+        # node sends may vanish (exit / down messages and request answers travel as such frames) and Terminate must close every
+        # remaining link, or the peer never sees the connection go down and delivers no node-down notification
+        _linkloss(c, 40 if c.tier == "quick" else 800)
         if c.violations:
             return
     if not c.replay:
